@@ -124,6 +124,10 @@ def build(scn):
         ii = env.ts(now - 26 * 3600)
     elif mut == 'future26h':
         ii = env.ts(now + 26 * 3600)
+    elif mut == 'stale_offset':
+        ii = env.ts(now - 30 * 3600 + 14 * 3600, 'noZ') + '+14:00'
+    elif mut == 'future_offset':
+        ii = env.ts(now + 30 * 3600 - 12 * 3600, 'noZ') + '-12:00'
     elif mut == 'schema':
         ii = None
     key = 'kIdp1' if rtype == 'logout_sp' else 'kSp'
